@@ -104,7 +104,7 @@ func TestTinyfo(t *testing.T) {
 	rapid.Check(t, func(rt *rapid.T) {
 		c, g, err := genCase(rt)
 		if err != nil {
-			e.SaveFail("generator", map[string]string{"src": c.Src, "error": err.Error()}, "harness: reference evaluator cannot run a generated program")
+			os.WriteFile(filepath.Join(e.Scratch, "harness_bug.txt"), []byte(err.Error()+"\n"+c.Src), 0o644) // a harness defect is inconclusive, never a violation
 			rt.Fatalf("harness bug: reference evaluator: %v\n%s", err, c.Src)
 		}
 		var labels []string
